@@ -3,6 +3,7 @@ import IdenaModel.Drivers.Util
 /-! Driver for channel C01balance: `balanceShards`, `appendToTop`, `calculateDiscriminationStakeThreshold` (model: Model/ShardBalance.lean).
 ops (one answer line per op):
 * `new <prevShards> <totalVerified> <totalNewbies> <totalSuspended>` — a new case
+* `case <json>` — the harness' description of the case (for replays); ignored
 * `cnt <kind> <shard=count,…|->` — entries of verifiedByShard (kind 0) / newbiesByShard (1) / suspendedByShard (2) as passed
 * `ids <kind:shard:stake> …` — the next identities in `IterateOverIdentities` order (the id of an identity is its position)
 * `perm <kind> <j,j,…|->` — the next entries of the permutation `rnd.Perm(len(…ForRelocation))` of that kind
@@ -65,6 +66,7 @@ def step (st : DSt) (line : String) : DSt × String :=
     match p.toNat?, v.toNat?, n.toNat?, s.toNat? with
     | some p, some v, some n, some s => ({ prev := p, totV := v, totN := n, totS := s }, "ok")
     | _, _, _, _ => (st, "bad-op")
+  | "case" :: _ => (st, "ok")
   | ["cnt", k, m] =>
     match k.toNat? with
     | some k => match parseCnt k m with
